@@ -278,6 +278,7 @@ type aLbatch struct {
 	Len      int
 	Herr     bool
 	Hpresent bool
+	Hhash    []byte // hash of the header that comes with the logs
 	Lerr     bool
 	LogsNil  bool
 	Logs     []*aLogr // nil entry: null log
@@ -550,7 +551,7 @@ func absLbatch(v any) *aLbatch {
 			if !ok {
 				return nil
 			}
-			absBlock(ro, false) // value-level decoding errors
+			lb.Hhash = absBlock(ro, false).Hash // also: value-level decoding errors
 			lb.Hpresent = true
 		}
 	}
@@ -725,7 +726,7 @@ func cLbatch(lb *aLbatch) string {
 		}
 		logs = "(Some [" + strings.Join(xs, "; ") + "])"
 	}
-	return fmt.Sprintf("(RBody (LB %s %s %s %s %s))", lib.CNat(lb.Len), lib.CBool(lb.Herr), lib.CBool(lb.Hpresent), lib.CBool(lb.Lerr), logs)
+	return fmt.Sprintf("(RBody (LB %s %s %s %s %s))", lib.CNat(lb.Len), lib.CBool(lb.Herr), lib.COpt(lb.Hpresent, lib.CBytes(lb.Hhash)), lib.CBool(lb.Lerr), logs)
 }
 
 func cTelem(e *aTelem) string {
